@@ -17,6 +17,9 @@ type NStyle struct {
 	Comments   bool
 	MultiColl  bool // collections over several lines with trailing commas
 	Heredoc    bool // strings ending in "\n" (directly the value of an attribute) as heredoc
+	// HeredocInterp: the first character of such a heredoc is written as an interpolation
+	// of a string literal (${"h"}...): a template sequence is the first token of the body
+	HeredocInterp bool
 	OneLine    bool // blocks with at most one attribute (and no nested block) on one line
 	ColonKeys  bool // object constructor with ":" and quoted keys
 	UniEscapes bool // non-ASCII as \u escapes in quoted strings
@@ -238,6 +241,9 @@ func (w *nativeWriter) attr(n *Node, ind string) {
 		w.b.WriteString("<<EOT")
 		w.nl()
 		body := templateEscape(strings.TrimSuffix(n.Val.S, "\n"))
+		if w.st.HeredocInterp && len(body) > 0 && (body[0] >= 'a' && body[0] <= 'z' || body[0] >= 'A' && body[0] <= 'Z' || body[0] >= '0' && body[0] <= '9') {
+			body = `${"` + body[:1] + `"}` + body[1:]
+		}
 		for _, line := range strings.Split(body, "\n") {
 			w.b.WriteString(line)
 			w.nl()
